@@ -1,6 +1,7 @@
 import DigModel.Props.C01
 import DigModel.Props.C02
 import DigModel.Proofs.Parse
+import DigModel.Proofs.Just2Api
 /-
   C12 — Decoration: every consumer below a decorator sees its replacement.
 
@@ -17,8 +18,11 @@ import DigModel.Proofs.Parse
     (the state afterwards equals the state before);
   * `C12_local`: `paramSingle.Build` consults decorators only in scopes on the path from the requesting scope
     to the root (`findDeco` ranges over `ancestors`), so scopes outside a decorator's subtree never see it.
-  Group decoration and "receives the next outer decorator's output" at history level are covered by the
-  correspondence check.
+  * `C12_decorated_value_is_decorator_output` / `C12_decorated_group_is_decorator_output` (whole programs, invariant
+    `Just2`): in every reachable container a decorated single value (a decorated group) stored in scope `S` under
+    key `k` is exactly what a successful execution of a decorator registered in `S` returned in the result that
+    declares `k` — so with `C12_consumer` what a consumer below receives is that decorator's output.
+  "Receives the next outer decorator's output" at history level is covered by the correspondence check.
 -/
 namespace Dig.C12
 
@@ -97,7 +101,27 @@ theorem C12_one (ctx : Ctx) (fn : Fn) (st : St) (i s : Nat) (cb info : Bool) :
                 · rw [if_pos hc]; exact foldl_aset_other keys _ _ k hmem
                 · rw [if_neg hc]; rfl
 
+theorem C12_decorated_value_is_decorator_output (p : Program) (S : Nat) (k : Key) (v : Val)
+    (h : aget ((runProgram p).1.scope S).decoratedValues k = some v) :
+    ∃ d slot decl, d < (runProgram p).1.decos.length ∧ ((runProgram p).1.deco d).s = S ∧
+      (false, k, slot, decl) ∈ slotDecoLeaves p.types ((runProgram p).1.deco d).results ∧
+      ∃ ret : Ret, v = ret.val p.types slot decl ∧
+        (ret.dry = false → ret.f = ((runProgram p).1.deco d).fn.id ∧
+          Event.exit (.deco d) ret.f ret.x .ok ∈ (runProgram p).1.hist) :=
+  (just2_program p).dvalues S k v h
+
+theorem C12_decorated_group_is_decorator_output (p : Program) (S : Nat) (k : Key) (v : Val)
+    (h : aget ((runProgram p).1.scope S).decoratedGroups k = some v) :
+    ∃ d slot decl, d < (runProgram p).1.decos.length ∧ ((runProgram p).1.deco d).s = S ∧
+      (true, k, slot, decl) ∈ slotDecoLeaves p.types ((runProgram p).1.deco d).results ∧
+      ∃ ret : Ret, v = ret.val p.types slot decl ∧
+        (ret.dry = false → ret.f = ((runProgram p).1.deco d).fn.id ∧
+          Event.exit (.deco d) ret.f ret.x .ok ∈ (runProgram p).1.hist) :=
+  (just2_program p).dgroups S k v h
+
 #print axioms C12_consumer
+#print axioms C12_decorated_value_is_decorator_output
+#print axioms C12_decorated_group_is_decorator_output
 #print axioms C12_self_skipped
 #print axioms C12_local
 #print axioms C12_once
